@@ -283,6 +283,13 @@ class EditHooks(SysHooks):
                     pair = (node.target.elts[0].id, node.target.elts[1].id)
             from .summ import strip_keyview
             it = strip_keyview(it)
+            from .summ import DictV
+            if isinstance(it, (ListV, DictV)) and not it.items and pair is None and vals_of is None:
+                # a loop over a collection known to be empty does nothing
+                return [(st, None)]
+            if isinstance(it, DictV) and pair is None and vals_of is None:
+                # iterating a dictionary sees its keys only
+                it = DictV([(k, None) for k, _ in it.items])
             if isinstance(it, ListV) and len(it.items) == 1:
                 elem = it.items[0]
             else:
